@@ -50,8 +50,7 @@ PROPERTIES = {
              "function (gap recorded, re-received segment removed, tail gap at EOF, coalescing keeps the set).",
              "Level 'other' because the completeness half ('the tracker view equals the set of bytes not yet stored') needs a ghost set of "
              "stored bytes across calls; it is carried by the per-function view contracts above plus C18, not by a single discharged "
-             "invariant. Open findings F13b/F13c (EOF or File Data PDUs, handled while the Metadata PDU is still missing, that are inconsistent with an EOF size received earlier) are reported "
-             "as KNOWN-FINDING. " + ENV,
+             "invariant. No open finding (F10, F13, F13b, F13c, F21 repaired). " + ENV,
              "Dest: _lost_segment_handling, _handle_fd_pdu, _handle_eof_pdu, _handle_fd_without_previous_metadata, "
              "_handle_eof_without_previous_metadata, _handle_waiting_for_missing_metadata, _start_deferred_lost_segment_handling, "
              "_deferred_lost_segment_handling (loop invariant + per-iteration obligations), _fsm_advancement_after_packets_were_sent; "
@@ -81,18 +80,17 @@ PROPERTIES = {
              "Source: _handle_segment_req, __handle_retransmission, _prepare_file_data_pdu, _prepare_metadata_pdu, "
              "_fsm_advancement_after_packets_were_sent, dispatch in _sending_file_data_fsm / _handle_waiting_for_ack / "
              "_handle_wait_for_finish.", [STUBS, ENV], [STUBS]),
-    "C10": P("other",
+    "C10": P("proof",
              "Both public state machines, put/cancel requests and get_next_packet are proved to end only normally or with a declared "
              "protocol exception, for every PDU kind and every state satisfying the (proved inductive) handler invariants; every private "
              "callee's precondition is proved at its call site; a PDU rejected by the admission check modifies nothing; "
              "UnretrievedPdusToBeSent only if the queue was non-empty at entry.",
-             "Level 'other' only because of open findings: the preconditions of _handle_waiting_for_missing_metadata that "
-             "exclude F13b and F13c (EOF/File Data PDUs inconsistent with an earlier EOF size) cannot be established by the dispatcher "
-             "for arbitrary PDUs and are reported as KNOWN-FINDING; every other obligation is discharged. FileNotFoundError from a filestore "
-             "race is treated as the filestore's documented exception. Default fault handler table as the property says. " + ENV,
-             "Source: state_machine, _fsm_non_idle (one instance per step), _check_inserted_packet and all their callees. Dest: "
-             "state_machine, __idle_fsm, __non_idle_fsm (8 statement slices with a common mid-condition), _check_inserted_packet and all "
-             "their callees.", [STUBS, ENV], [STUBS]),
+             "FileNotFoundError from a filestore race is treated as the filestore's documented exception. Default fault handler table as "
+             "the property says (with ABANDON configured for a receiver-side fault the open finding F5c applies: see C14). The findings "
+             "F13b/F13c/F21/F5a/F5b that this check had reported are repaired in /repo. " + ENV,
+             "Source: __init__, state_machine, _fsm_non_idle (one instance per step), _check_inserted_packet and all their callees. Dest: "
+             "__init__, state_machine, __idle_fsm, __non_idle_fsm (8 statement slices with a common mid-condition), "
+             "_check_inserted_packet and all their callees.", [STUBS, ENV], [STUBS]),
     "C11": P("proof",
              "Fresh-state invariant: the source invariant states that before a transaction starts every per-transaction field has its "
              "constructor value and it is proved for every path that ends a transaction; the destination's reset/start paths are proved "
